@@ -8,9 +8,23 @@ svars == <<vars, done>>
 SimInit == MCInit /\ done = FALSE
 \* continuous runs are ended by the operator once the destination has caught up (or, rarely, at any time)
 SimCancel == Cancel /\ ((cfg.cont /\ Covered /\ pc \in {"passDone", "start"}) \/ RandomElement(1..25) = 1)
-SimStep == Controller \/ Workers \/ Submitters \/ Integrate \/ Grow \/ Revoke \/ Regain \/ Restart \/ SimCancel
+\* the signer keeps the schedule the scenario names (cfg.lag): whole rounds may pass before the root moves
+SimStep == Controller \/ Workers \/ Submitters \/ (SignerAwake /\ Integrate) \/ Grow \/ Revoke \/ Regain \/ Restart \/ SimCancel
+\* --- signer-lag simulation (MigrillianSimLag.cfg): continuous runs that last for several rounds.  The operator ends the run
+\* only once the destination has caught up (which takes the signer, asleep for the first cfg.lag root requests) - not
+\* counted as a fault -, rarely at any other time; the source grows mostly between the rounds, so that round after round
+\* begins with new entries and a root that has not moved.
+OperatorStop ==
+  /\ cfg.cont /\ Covered /\ pc \in {"passDone", "start"} /\ alive /\ srcSize = cfg.src0 + cfg.growth
+  /\ alive' = FALSE /\ pc' = "unwind" /\ why' = "cancel"
+  /\ Log([ev |-> "Cancel", pass |-> pass, calls |-> calls]) /\ Terminal
+  /\ UNCHANGED <<cfg, srcSize, dest, destSize, pipe, master, faults, restarts, verified, subm, pass, calls, result, pos, root, sth, proved, gen>>
+GrowBetween == Grow /\ (pc \in {"start", "prepare", "passDone"} \/ RandomElement(1..4) = 1)
+SimLagStep == Controller \/ Workers \/ Submitters \/ (SignerAwake /\ Integrate) \/ GrowBetween \/ Revoke \/ Regain \/ Restart
+              \/ OperatorStop \/ (Cancel /\ RandomElement(1..80) = 1)
 Finish == pc = "returned" /\ ~done /\ done' = TRUE /\ UNCHANGED vars
 SimNext == (~done /\ SimStep /\ UNCHANGED done) \/ Finish
+SimLagNext == (~done /\ SimLagStep /\ UNCHANGED done) \/ Finish
 Export == done => PrintT(<<"BEH", ToJson([cfg |-> cfg, hist |-> hist, dest |-> {i \in Idx : dest[i] # None},
                                           destSize |-> destSize, srcSize |-> srcSize, result |-> result,
                                           terminal |-> ("terminal" \in flags), passes |-> pass])>>)
